@@ -10,6 +10,7 @@ oracle the Lean model `Framing.frames` is run with; both must see the same
 frames, and the property oracle (exactly the PDUs sent, in order, then closed;
 never a truncated PDU) is evaluated on the real side alone.
 """
+from harness import poolinit as _e2e_exit
 import itertools
 import socket
 import threading
@@ -349,7 +350,7 @@ def idle_check(ctx):
             for i in range(k):
                 plan.append([rng.choice([0, 0, 4, 8]), i == k - 1])
         plans.append(plan)
-    pool = mp.get_context("fork").Pool(processes=6, maxtasksperchild=4)
+    pool = mp.get_context("fork").Pool(processes=6, maxtasksperchild=4, initializer=_e2e_exit.no_join_at_exit)
     try:
         results = pool.map(idle_scenario, [(T, p) for p in plans])
         # a plan that went wrong is run once more, alone (gaps of 0.8 T leave little room on a busy machine)
@@ -362,7 +363,7 @@ def idle_check(ctx):
     # requestor side: the connection timeout must not survive the connection
     lf = e2e.load_factor()
     sjobs = [(0.3 * lf, 0.9 * lf, cut) for cut in (3, 40)]
-    pool = mp.get_context("fork").Pool(processes=2, maxtasksperchild=1)
+    pool = mp.get_context("fork").Pool(processes=2, maxtasksperchild=1, initializer=_e2e_exit.no_join_at_exit)
     try:
         sres = pool.map(slow_answer_scenario, sjobs)
     finally:
